@@ -106,6 +106,8 @@ def texts_task(d, texts, names):
             for cfg in CONFIGS:
                 rc, out, err = run_cfg(d, name, cfg, data)
                 st.inc('runs')
+                if len(st.samples) < 3 and len(text) <= 8:
+                    st.sample({'program': name, 'config': '%s -O%d' % cfg, 'input': text, 'status': rc})
                 got, other = (err, out) if name == 'cat-stderr' else (out, err)
                 if rc != 0 or got != exp or other != b'':
                     short = text if len(text) <= 40 else text[:20] + '…[%d chars]' % len(text)
